@@ -443,62 +443,7 @@ func runC08(w *World, r *Report) {
 	}
 
 	// ---- 4. attribute isolation ----
-	const ruleIso = "C08/attribute-isolation"
-	shared := map[string]bool{"Padding": true}
-	for _, fn := range parsePhaseFuncs(w) {
-		forEachInstr(fn, func(b *ssa.BasicBlock, ins ssa.Instruction) {
-			st, ok := ins.(*ssa.Store)
-			if !ok {
-				return
-			}
-			fa, ok := st.Addr.(*ssa.FieldAddr)
-			if !ok {
-				return
-			}
-			if tn, f, _, _ := fieldOf(fa); tn == "MetaData" && f == "Attr" {
-				for t := range w.dynTypes(st.Val, "", 0, map[*ssa.Function]bool{}, map[ssa.Value]bool{}) {
-					t = strings.TrimPrefix(strings.TrimPrefix(t, "*"), "model.")
-					if t != "nil" && t != "?" {
-						shared[t] = true
-					}
-				}
-			}
-		})
-	}
-	r.note("attribute types that a MetaData entry can share: %v", sortedBoolKeys(shared))
-	nIso := 0
-	for _, fn := range parsePhaseFuncs(w) {
-		counts := map[string]int{}
-		forEachInstr(fn, func(b *ssa.BasicBlock, ins ssa.Instruction) {
-			st, ok := ins.(*ssa.Store)
-			if !ok {
-				return
-			}
-			fa, ok := st.Addr.(*ssa.FieldAddr)
-			if !ok {
-				return
-			}
-			tn, f, _, _ := fieldOf(fa)
-			if !shared[tn] {
-				return
-			}
-			nIso++
-			kb := fmt.Sprintf("%s writes %s.%s", fnKey(fn), tn, f)
-			counts[kb]++
-			key := kb
-			if counts[kb] > 1 {
-				key = fmt.Sprintf("%s#%d", kb, counts[kb])
-			}
-			if cls, _ := w.baseClass(fa.X); cls == "fresh" && !w.sharedThroughShallowCopy(fa.X, ins) {
-				r.pass(ruleIso, key, w.instrPos(ins), "through a fresh object")
-			} else {
-				r.fail(ruleIso, key, w.instrPos(ins), "writes an attribute object that may be the one stored in a MetaData entry and shared by every field of that type: the attribute leaks to other fields")
-			}
-		})
-	}
-	if nIso < 3 {
-		r.fail(ruleIso, "attribute writes found", "internal/parser/packet_dsl_parser.go", fmt.Sprintf("expected >= 3 attribute field writes in the model visitor, found %d", nIso))
-	}
+	attributeIsolation(w, r, "C08")
 
 	// ---- 5. inline vs prefixed placement ----
 	const rulePlace = "C08/attribute-placement"
@@ -637,4 +582,68 @@ func (w *World) sharedThroughShallowCopy(p ssa.Value, at ssa.Instruction) bool {
 		}
 	}
 	return true
+}
+
+// attributeIsolation: an attribute written on one field stays on that field. Attribute objects that a MetaData entry can hold are
+// shared by every field of that type; parse-phase code may only write into an attribute (or into a Padding it points to) that it has
+// freshly constructed. (C08: "an attribute applies only to the field it is written on"; C01: the declared pad character / side of one
+// field must not become that of its siblings.)
+func attributeIsolation(w *World, r *Report, prop string) {
+	ruleIso := prop + "/attribute-isolation"
+	shared := map[string]bool{"Padding": true}
+	for _, fn := range parsePhaseFuncs(w) {
+		forEachInstr(fn, func(b *ssa.BasicBlock, ins ssa.Instruction) {
+			st, ok := ins.(*ssa.Store)
+			if !ok {
+				return
+			}
+			fa, ok := st.Addr.(*ssa.FieldAddr)
+			if !ok {
+				return
+			}
+			if tn, f, _, _ := fieldOf(fa); tn == "MetaData" && f == "Attr" {
+				for t := range w.dynTypes(st.Val, "", 0, map[*ssa.Function]bool{}, map[ssa.Value]bool{}) {
+					t = strings.TrimPrefix(strings.TrimPrefix(t, "*"), "model.")
+					if t != "nil" && t != "?" {
+						shared[t] = true
+					}
+				}
+			}
+		})
+	}
+	r.note("attribute types that a MetaData entry can share: %v", sortedBoolKeys(shared))
+	nIso := 0
+	for _, fn := range parsePhaseFuncs(w) {
+		counts := map[string]int{}
+		forEachInstr(fn, func(b *ssa.BasicBlock, ins ssa.Instruction) {
+			st, ok := ins.(*ssa.Store)
+			if !ok {
+				return
+			}
+			fa, ok := st.Addr.(*ssa.FieldAddr)
+			if !ok {
+				return
+			}
+			tn, f, _, _ := fieldOf(fa)
+			if !shared[tn] {
+				return
+			}
+			nIso++
+			kb := fmt.Sprintf("%s writes %s.%s", fnKey(fn), tn, f)
+			counts[kb]++
+			key := kb
+			if counts[kb] > 1 {
+				key = fmt.Sprintf("%s#%d", kb, counts[kb])
+			}
+			if cls, _ := w.baseClass(fa.X); cls == "fresh" && !w.sharedThroughShallowCopy(fa.X, ins) {
+				r.pass(ruleIso, key, w.instrPos(ins), "through a fresh object")
+			} else {
+				r.fail(ruleIso, key, w.instrPos(ins), "writes an attribute object that may be the one stored in a MetaData entry and shared by every field of that type: the attribute leaks to other fields")
+			}
+		})
+	}
+	if nIso < 3 {
+		r.fail(ruleIso, "attribute writes found", "internal/parser/packet_dsl_parser.go", fmt.Sprintf("expected >= 3 attribute field writes in the model visitor, found %d", nIso))
+	}
+
 }
